@@ -19,6 +19,19 @@ Also checked (everything the Lean model `SophiaModel.Heap` relies on about the s
   * `SimpleTerm` derives `Clone`; `from_term_ref` deep-copies the components of a quoted triple with
     `SimpleTerm::<'static>::from_term` and hands out the accessors' (borrowed) strings for atoms;
     `ensure_owned` has the modelled two branches.
+Second generated definition, `termEscapes : Bool`: does `impl TermIndex for SimpleTermIndex` declare
+`type Term = SimpleTerm<'static>` (true: `get_term` / `triples()` / `quads()` lend `&'_ SimpleTerm<'static>`,
+whose safe `.clone()` is a `SimpleTerm<'static>` still pointing into the keys — it can outlive the store)
+or the uninhabited marker `IndexedTerm` with `BorrowTerm<'x> = &'x SimpleTerm<'x>` of
+notes/fixes/C10-indexed-term-lifetime.diff (false)?  Anything else fails closed.
+
+Closed API surface (a safe method that hands `i2t` out, or clears only one of the two maps, needs no new
+`unsafe` and touches none of the pinned bodies): the list of `fn`s of every `impl` block that mentions
+`SimpleTermIndex` / the four store structs is pinned, as are the stores' fields, the eight public
+aliases (`LightGraph` … `small::FastDataset`), the set of files of inmem/src, the bodies of `get_term`,
+`get_index` and `FromTerm::from_term`, and the number of `unsafe` tokens in EVERY file of inmem/src and in
+api/src/term/_simple.rs (`#[cfg(test)]` / `#[cfg(sophia_verif)]` ITEMS are cut one by one — not "everything
+after the first `#[cfg(test)]`", `pub mod small` sits below the tests).
 `read`, `ExtractError`, `HEADER` are injected by tools/extract.py.
 """
 import re
@@ -27,9 +40,44 @@ INDEX = "inmem/src/index.rs"
 SIMPLE = "api/src/term/_simple.rs"
 
 
+def _nocomment(s):
+    s = re.sub(r"/\*.*?\*/", "", s, flags=re.S)
+    return re.sub(r"//[^\n]*", "", s)
+
+
 def _norm(s):
-    s = re.sub(r"//[^\n]*", "", s)
-    return re.sub(r"\s+", "", s)
+    return re.sub(r"\s+", "", _nocomment(s))
+
+
+def _strip_cfg(code, what):
+    """remove every item guarded by `#[cfg(test)]`, `#[cfg(all(test, ..))]` or `#[cfg(sophia_verif)]`
+    (attribute + the item up to its `;` or its balanced block); `code` has no comments"""
+    pat = re.compile(r"#\[cfg\((?:test|all\(test\b[^\]]*|sophia_verif)\)\]")
+    while True:
+        m = pat.search(code)
+        if not m:
+            return code
+        semi = code.find(";", m.end())
+        brace = code.find("{", m.end())
+        if brace < 0 and semi < 0:
+            raise ExtractError("%s: cfg-guarded item without body" % what)  # noqa: F821
+        if brace < 0 or (0 <= semi < brace):
+            code = code[:m.start()] + code[semi + 1:]
+        else:
+            blk = _block(code, m.end(), what + ": cfg-guarded item")
+            code = code[:m.start()] + code[brace + len(blk):]
+
+
+def _impl_fns(code, mention):
+    """[(normalised impl header, [fn names])] of every impl block whose header matches `mention`"""
+    out = []
+    for m in re.finditer(r"\bimpl\b[^{;]*\{", code):
+        hdr = re.sub(r"\s+", " ", m.group(0)[:-1]).strip()
+        if not re.search(mention, hdr):
+            continue
+        blk = _block(code, m.end() - 1, hdr)
+        out.append((hdr, re.findall(r"\bfn\s+([A-Za-z_0-9]+)", blk)))
+    return out
 
 
 def _block(text, start, what):
@@ -121,6 +169,97 @@ TermKind::Triple => {
 }
 ''')
 
+FROM_TERM = _norm('''
+{
+    match term.kind() {
+        TermKind::Iri => SimpleTerm::Iri(term.iri().unwrap().map_unchecked(ensure_owned)),
+        TermKind::BlankNode => {
+            SimpleTerm::BlankNode(term.bnode_id().unwrap().map_unchecked(ensure_owned))
+        }
+        TermKind::Literal => {
+            let lex = ensure_owned(term.lexical_form().unwrap());
+            if let Some(tag) = term.language_tag() {
+                let tag = tag.map_unchecked(ensure_owned);
+                SimpleTerm::LiteralLanguage(lex, tag)
+            } else {
+                let dt = term.datatype().unwrap().map_unchecked(ensure_owned);
+                SimpleTerm::LiteralDatatype(lex, dt)
+            }
+        }
+        TermKind::Triple => {
+            let t = term.triple().unwrap();
+            SimpleTerm::Triple(Box::new([
+                Self::from_term(t.s()),
+                Self::from_term(t.p()),
+                Self::from_term(t.o()),
+            ]))
+        }
+        TermKind::Variable => {
+            SimpleTerm::Variable(term.variable().unwrap().map_unchecked(ensure_owned))
+        }
+    }
+}
+''')
+
+GET_TERM = _norm("{ let i = i.into_usize(); self.i2t[i].borrow_term() }")
+GET_INDEX = _norm("{ self.t2i.get(&t.as_simple()).copied() }")
+INDEXED_TERM_ENUM = _norm("pub enum IndexedTerm {}")
+INDEXED_TERM_IMPL = _norm('''
+{
+    type BorrowTerm<'x> = &'x SimpleTerm<'x>;
+
+    fn kind(&self) -> TermKind {
+        match *self {}
+    }
+    fn borrow_term(&self) -> Self::BorrowTerm<'_> {
+        match *self {}
+    }
+}
+''')
+
+INDEX_IMPLS = [
+    ("impl<I: Index> Clone for SimpleTermIndex<I>", ["clone"]),
+    ("impl<I: Index> SimpleTermIndex<I>", ["new", "len", "is_empty"]),
+    ("impl<I: Index> TermIndex for SimpleTermIndex<I>", ["get_index", "ensure_index", "get_term"]),
+    ("impl<I: Index> GraphNameIndex for SimpleTermIndex<I>", ["get_default_graph_index"]),
+]
+INDEXED_TERM_IMPLS = [("impl Term for IndexedTerm", ["kind", "borrow_term"])]
+
+
+def _store_impls(name, bound, kind):
+    # kind: "Graph" / "Dataset"
+    it, src = ("triples", "from_triple_source") if kind == "Graph" else ("quads", "from_quad_source")
+    return [
+        ("impl<TI: %s + Default> %s<TI>" % (bound, name), ["new"]),
+        ("impl<TI: %s> %s for %s<TI>" % (bound, kind, name), [it, it + "_matching"]),
+        ("impl<TI: %s> Mutable%s for %s<TI>" % (bound, kind, name), ["insert", "remove"]),
+        ("impl<TI: %s + Default> Collectible%s for %s<TI>" % (bound, kind, name), [src]),
+        ("impl<TI: %s> Set%s for %s<TI>" % (bound, kind, name), []),
+    ]
+
+
+STORE_FIELDS = {
+    "GenericLightGraph": "{terms:TI,triples:BTreeSet<[TI::Index;3]>,}",
+    "GenericFastGraph": "{terms:TI,spo:BTreeSet<[TI::Index;3]>,pos:BTreeSet<[TI::Index;3]>,osp:BTreeSet<[TI::Index;3]>,}",
+    "GenericLightDataset": "{terms:TI,quads:BTreeSet<[TI::Index;4]>,}",
+    "GenericFastDataset": "{terms:TI,gspo:BTreeSet<[TI::Index;4]>,gpos:BTreeSet<[TI::Index;4]>,gosp:BTreeSet<[TI::Index;4]>,"
+                          "spog:BTreeSet<[TI::Index;4]>,posg:BTreeSet<[TI::Index;4]>,ospg:BTreeSet<[TI::Index;4]>,}",
+}
+ALIASES = {
+    "inmem/src/graph.rs": ["pub type LightGraph = GenericLightGraph<SimpleTermIndex<u32>>;",
+                           "pub type FastGraph = GenericFastGraph<SimpleTermIndex<u32>>;",
+                           "pub type LightGraph = super::GenericLightGraph<SimpleTermIndex<u16>>;",
+                           "pub type FastGraph = super::GenericFastGraph<SimpleTermIndex<u16>>;"],
+    "inmem/src/dataset.rs": ["pub type LightDataset = GenericLightDataset<SimpleTermIndex<u32>>;",
+                             "pub type FastDataset = GenericFastDataset<SimpleTermIndex<u32>>;",
+                             "pub type LightDataset = super::GenericLightDataset<SimpleTermIndex<u16>>;",
+                             "pub type FastDataset = super::GenericFastDataset<SimpleTermIndex<u16>>;"],
+}
+INMEM_FILES = ["dataset.rs", "dataset/_iter.rs", "graph.rs", "graph/_iter.rs", "index.rs", "lib.rs"]
+# `unsafe` tokens outside cfg(test) / cfg(sophia_verif) items; index.rs depends on the Clone shape (see below)
+UNSAFE_COUNT = {"inmem/src/lib.rs": 0, "inmem/src/graph.rs": 0, "inmem/src/dataset.rs": 0, "inmem/src/graph/_iter.rs": 0,
+                "inmem/src/dataset/_iter.rs": 6, "api/src/term/_simple.rs": 1}
+
 STORES = [
     ("inmem/src/graph.rs", "GenericLightGraph", "TermIndex"),
     ("inmem/src/graph.rs", "GenericFastGraph", "TermIndex"),
@@ -160,18 +299,54 @@ def extract_clone_kind(repo):
     # Drop / other unsafe in the index would be outside the model
     if re.search(r"impl\s*<[^>]*>\s*Drop\s+for\s+SimpleTermIndex", text):
         raise ExtractError("%s: SimpleTermIndex has a manual Drop impl (not modelled)" % INDEX)  # noqa: F821
-    # items guarded by cfg(sophia_verif) are add-only instrumentation: cut them before counting `unsafe`
-    code = re.sub(r"//[^\n]*", "", text.split("#[cfg(test)]")[0])
-    while True:
-        j = code.find("#[cfg(sophia_verif)]")
-        if j < 0:
-            break
-        blk = _block(code, j, INDEX + ": cfg(sophia_verif) item")
-        code = code[:j] + code[code.index("{", j) + len(blk):]
+    # items guarded by cfg(sophia_verif) are add-only instrumentation, cfg(test) items are tests: cut them
+    # (item by item) before counting `unsafe` and before listing the API surface
+    code = _strip_cfg(_nocomment(text), INDEX)
     n_unsafe = len(re.findall(r"\bunsafe\b", code))
     want = 1 if kind == "derived" else 2
     if n_unsafe != want:
         raise ExtractError("%s: %d `unsafe` sites outside cfg(sophia_verif) items, the model covers %d" % (INDEX, n_unsafe, want))  # noqa: F821
+    # the term type lent by get_term / triples() / quads()
+    mt = re.search(r"impl<I: Index> TermIndex for SimpleTermIndex<I>\s*\{", code)
+    if not mt:
+        raise ExtractError("%s: impl TermIndex for SimpleTermIndex not found" % INDEX)  # noqa: F821
+    ti = _norm(_block(code, mt.end() - 1, INDEX + ": impl TermIndex"))
+    if not ti.startswith("{typeTerm="):
+        raise ExtractError("%s: impl TermIndex for SimpleTermIndex does not start with `type Term`" % INDEX)  # noqa: F821
+    ncode = _norm(code)
+    if ti.startswith("{typeTerm=SimpleTerm<'static>;typeIndex=I;typeError=TermIndexFullError;") and "IndexedTerm" not in code:
+        escapes, want_impls = True, [x for x in INDEX_IMPLS if kind == "manual" or "Clone" not in x[0]]
+    elif ti.startswith("{typeTerm=IndexedTerm;typeIndex=I;typeError=TermIndexFullError;"):
+        mi = re.search(r"impl Term for IndexedTerm\s*\{", code)
+        if INDEXED_TERM_ENUM not in ncode or not mi or _norm(_block(code, mi.end() - 1, "impl Term for IndexedTerm")) != INDEXED_TERM_IMPL:
+            raise ExtractError("%s: `type Term = IndexedTerm` but IndexedTerm is not the understood uninhabited marker "  # noqa: F821
+                               "with `BorrowTerm<'x> = &'x SimpleTerm<'x>`" % INDEX)
+        escapes = False
+        want_impls = [x for x in INDEX_IMPLS if kind == "manual" or "Clone" not in x[0]]
+        want_impls = want_impls[:-2] + INDEXED_TERM_IMPLS + want_impls[-2:]
+    else:
+        raise ExtractError("%s: the term type of SimpleTermIndex is neither SimpleTerm<'static> nor the understood IndexedTerm" % INDEX)  # noqa: F821
+    for fn_re, want_body, nm in ((r"fn\s+get_term\(&self,\s*i:\s*Self::Index\)\s*->\s*<Self::Term as Term>::BorrowTerm<'_>\s*\{", GET_TERM, "get_term"),
+                                 (r"fn\s+get_index<T:\s*Term>\(&self,\s*t:\s*T\)\s*->\s*Option<Self::Index>\s*\{", GET_INDEX, "get_index")):
+        bodies = [_norm(_block(code, m_.end() - 1, nm)) for m_ in re.finditer(fn_re, code)]
+        if want_body not in bodies:
+            raise ExtractError("%s: body of SimpleTermIndex::%s is not the modelled one" % (INDEX, nm))  # noqa: F821
+    got = _impl_fns(code, r"SimpleTermIndex|IndexedTerm")
+    if got != want_impls:
+        raise ExtractError("%s: the impl blocks / methods of SimpleTermIndex are not the modelled API surface: %r" % (INDEX, got))  # noqa: F821
+    # files of the crate
+    import os
+    root = os.path.join(repo, "inmem", "src")
+    files = sorted(os.path.relpath(os.path.join(dp, f), root) for dp, _, fs in os.walk(root) for f in fs)
+    if files != INMEM_FILES:
+        raise ExtractError("inmem/src: files are %r, the model knows %r" % (files, INMEM_FILES))  # noqa: F821
+    for rel, want_n in UNSAFE_COUNT.items():
+        c = _strip_cfg(_nocomment(read(repo, rel)), rel)  # noqa: F821
+        n = len(re.findall(r"\bunsafe\b", c))
+        if n != want_n:
+            raise ExtractError("%s: %d `unsafe` tokens, the model covers %d" % (rel, n, want_n))  # noqa: F821
+        if rel.endswith("dataset/_iter.rs") and len(re.findall(r"unsafe\s*\{\s*[spo]\.unwrap_unchecked\(\)\s*\}", c)) != want_n:
+            raise ExtractError("%s: an `unsafe` block that is not `{ s|p|o.unwrap_unchecked() }`" % rel)  # noqa: F821
     # the stores
     for rel, name, bound in STORES:
         t = read(repo, rel)  # noqa: F821
@@ -180,10 +355,22 @@ def extract_clone_kind(repo):
             raise ExtractError("%s: %s does not derive Clone" % (rel, name))  # noqa: F821
         if re.search(r"Clone\s+for\s+%s\b" % name, t):
             raise ExtractError("%s: %s has a manual Clone impl (not modelled)" % (rel, name))  # noqa: F821
-        if not _norm(_block(t, m2.end() - 1, name)).startswith("{terms:TI,"):
-            raise ExtractError("%s: %s does not embed the index as `terms: TI`" % (rel, name))  # noqa: F821
-        if re.search(r"\bunsafe\b", re.sub(r"//[^\n]*", "", t.split("#[cfg(test)]")[0])):
-            raise ExtractError("%s: contains `unsafe` (not modelled)" % rel)  # noqa: F821
+        if _norm(_block(t, m2.end() - 1, name)) != STORE_FIELDS[name]:
+            raise ExtractError("%s: the fields of %s are not `terms: TI` + the modelled sets of index rows" % (rel, name))  # noqa: F821
+    for rel, kind_ in (("inmem/src/graph.rs", "Graph"), ("inmem/src/dataset.rs", "Dataset")):
+        c = _strip_cfg(_nocomment(read(repo, rel)), rel)  # noqa: F821
+        want_s = []
+        for rel2, name, bound in STORES:
+            if rel2 == rel:
+                # the impl blocks of GenericFastDataset / GenericLightDataset are bounded by GraphNameIndex
+                b = "GraphNameIndex" if kind_ == "Dataset" else bound
+                want_s += _store_impls(name, b, kind_)
+        got_s = _impl_fns(c, r"Generic(?:Light|Fast)(?:Graph|Dataset)")
+        if got_s != want_s:
+            raise ExtractError("%s: the impl blocks / methods of the stores are not the modelled API surface: %r" % (rel, got_s))  # noqa: F821
+        al = [re.sub(r"\s+", " ", a) for a in re.findall(r"pub\s+type\s+[^;]*;", c)]
+        if al != ALIASES[rel]:
+            raise ExtractError("%s: the public aliases are not the modelled ones: %r" % (rel, al))  # noqa: F821
     # SimpleTerm
     s = read(repo, SIMPLE)  # noqa: F821
     ds3, _ = _derives(s, r"pub enum SimpleTerm<'a>\s*\{", SIMPLE + ": SimpleTerm")
@@ -192,6 +379,10 @@ def extract_clone_kind(repo):
     mo = re.search(r"fn\s+ensure_owned\(m:\s*MownStr\)\s*->\s*MownStr<'static>\s*", s)
     if not mo or _norm(_block(s, mo.end() - 1, "ensure_owned")) != ENSURE_OWNED:
         raise ExtractError("%s: ensure_owned is not the modelled one" % SIMPLE)  # noqa: F821
+    mf = re.search(r"impl FromTerm for SimpleTerm<'static>\s*\{\s*fn from_term<T: Term>\(term: T\) -> Self\s*", s)
+    if not mf or _norm(_block(s, mf.end() - 1, "from_term")) != FROM_TERM:
+        raise ExtractError("%s: FromTerm::from_term for SimpleTerm<'static> is not the modelled one "  # noqa: F821
+                           "(every string through ensure_owned, components of a quoted triple recursively)" % SIMPLE)
     mr = re.search(r"pub fn from_term_ref<T>\(term:\s*&'a T\)\s*->\s*Self", s)
     if not mr:
         raise ExtractError("%s: from_term_ref not found" % SIMPLE)  # noqa: F821
@@ -212,8 +403,13 @@ def extract_clone_kind(repo):
             + "notes/fixes/C10-manual-clone.diff (clone `t2i`, rebuild `i2t` from the new keys).\n"
             + "The four store structs derive `Clone` and embed the index as `terms: TI`. -/\n"
             + "def cloneKind : SophiaModel.Heap.CloneKind := .%s\n\n" % kind
+            + "/-- does `impl TermIndex for SimpleTermIndex` declare `type Term = SimpleTerm<'static>`, so that\n"
+            + "`get_term(i).clone()` (and the clone of any term lent by `triples()` / `quads()`) is a\n"
+            + "`SimpleTerm<'static>` that may outlive the store (`true`), or the uninhabited marker `IndexedTerm`\n"
+            + "of notes/fixes/C10-indexed-term-lifetime.diff, which lends `&'x SimpleTerm<'x>` (`false`)? -/\n"
+            + "def termEscapes : Bool := %s\n\n" % ("true" if escapes else "false")
             + "end SophiaModel.Gen\n")
-    return lean, {"clone_kind": kind, "unsafe_sites_index_rs": n_unsafe}
+    return lean, {"clone_kind": kind, "term_escapes": escapes, "unsafe_sites_index_rs": n_unsafe}
 
 
 EXTRACTORS = {"clone_kind": ("CloneKind.lean", extract_clone_kind)}
